@@ -95,7 +95,8 @@ package limit
 //@   requires tl != nil
 //@   loop 1 iteration-ensures [failed-ping-keeps-rescue-bucket] calls(tl.store.Ping) == 1 && !ret(Ping) && tl.redisAlive == at_head(tl.redisAlive)
 //@   ensures [monitor-retired-under-lock] !tl.monitorStarted && calls(Stop) == 1 && calls(on("lock", tl.rescueLock)) == 1 && calls(on("unlock", tl.rescueLock)) == 1
-//@   ensures [back-to-redis-only-after-a-good-ping] calls(Ping) == 1 && ret(Ping) ==> tl.redisAlive == 1
+//@   loop 1 invariant tl.redisAlive == old(tl.redisAlive)
+//@   ensures [back-to-redis-only-after-a-good-ping] (tail(calls(Ping) == 1 && ret(Ping)) ==> tl.redisAlive == 1) && (tl.redisAlive != old(tl.redisAlive) ==> tail(calls(Ping) == 1 && ret(Ping)) && tl.redisAlive == 1)
 // Construction: keys derived from the caller's key, Redis in charge at first, and a rescue bucket of the SAME
 // rate (one token every 1/rate second) and burst.
 //@ func NewTokenLimiter
